@@ -3,7 +3,7 @@
    decode never reads the key map, so key collisions created by the rescaling are invisible. *)
 From Coq Require Import List Bool ZArith QArith Qcanon Lia Sorted.
 From RecordUpdate Require Import RecordSet.
-From PV Require Import Base.AList Base.QUtil Model.EventLib Model.Seq Model.ModAxis.
+From PV Require Import Base.AList Base.QUtil Model.EventLib Model.Seq Model.ModAxis Gen.GenGradOps.
 Import ListNotations RecordSetNotations.
 Open Scope Z_scope.
 
@@ -263,7 +263,7 @@ Theorem scale_row_spec ty m data j : (j < length data)%nat ->
   knth (scale_row ty m data) j =
   if (Nat.eqb j 0 || ((ty =? tag_g) && (Nat.eqb j 4 || Nat.eqb j 5)))%bool then (knth data j * m)%Qc else knth data j.
 Proof.
-  intro H. unfold knth, scale_row. rewrite scale_at_spec by exact H. cbn [Nat.add].
+  intro H. unfold knth, scale_row, ma_cols_all, ma_cols_g. cbn [app]. rewrite scale_at_spec by exact H. cbn [Nat.add].
   destruct (ty =? tag_g); cbn [existsb andb].
   - rewrite !(Nat.eqb_sym j). rewrite orb_false_r. rewrite orb_assoc. reflexivity.
   - rewrite !(Nat.eqb_sym j). rewrite !orb_false_r. reflexivity.
